@@ -1286,7 +1286,7 @@ def path_getattr(I, p: SPath, attr):
         s = ex.fresh("pathname", "str")
         ex.assume((z3.Length(s.t) == 0) == p.noname)
         return s
-    if attr in ("with_suffix", "joinpath", "exists", "is_file", "is_absolute", "is_dir", "open", "read_text", "stat", "__str__"):
+    if attr in ("with_suffix", "joinpath", "exists", "is_file", "is_absolute", "is_dir", "open", "read_text", "stat", "__str__", "expanduser", "resolve", "absolute"):
         return BoundIntrinsic(p, "path", attr)
     raise Unsupported(f"Path.{attr}")
 
@@ -1629,3 +1629,14 @@ def hex04(I, v):
         ex.assume(z3.Length(r) >= 4)
     I.use("format(n, '04x'): four lowercase hex digits denoting n when 0 <= n <= 0xFFFF (library fact)")
     return SStr(r)
+
+
+
+@meth("path", "expanduser", "resolve", "absolute")
+def _path_relocate(I, recv, args, kw):
+    """expanduser() / resolve() / absolute(): the result is some other path - a leading `~` component becomes a home directory,
+    symlinks and `..` are followed - whose relation to the root it was joined to is lost in the lexical model."""
+    ex = I.ex
+    I.use("Path.expanduser()/resolve()/absolute(): a path that need not lie inside the directory the original was joined to (lexical model: unconstrained)")
+    return SPath(ex.fresh("reloc_abs", "bool").t, ex.fresh("reloc_pardir", "bool").t, recv.noname, recv.suffix,
+                 inside=ex.fresh("reloc_inside", "bool").t, root=getattr(recv, "root", None))
